@@ -40,6 +40,20 @@ def r1_loop(ck, cx, kind, cls, f, fps):
                 ck.ob('R1', f.qn, 'loop continues after a delivery', bool(after) and after[0] == 'backedge',
                       detail='loop-exits-after-delivery', loc=cx.floc(f),
                       message='%s framer leaves its loop right after delivering one frame' % kind)
+    # the same for a complete, checked frame that is rejected because it is addressed to another unit: only that frame goes
+    for fp in fps:
+        if fp.unit_reject is None or (fp.exit and fp.exit[0] == 'exc'):
+            continue
+        r0 = fp.unit_reject
+        nxt = [i for i, k_, n_ in fp.loops if i > r0]
+        hi_i = nxt[0] if nxt else len(fp.path.ev)
+        if not any(True for i, k_, n_ in fp.loops if i < r0):
+            continue        # no frame loop (RTU): one frame per call anyway (R1 above / known finding)
+        clears = [i for i, k_ in fp.shrinks if k_ == 'clear' and r0 <= i <= hi_i]
+        ck.ob('R1', f.qn, 'a frame for a foreign unit is skipped by advancing past it, not by clearing the buffer', not clears,
+              detail='foreign-unit-reject-clears-buffer', loc=cx.floc(f, fp.path.ev[clears[0]].node) if clears else cx.floc(f),
+              message='%s framer empties its whole buffer when it meets a valid frame for a unit it does not serve: a request for a served unit that '
+                      'arrived in the same read behind it is lost' % kind)
     ck.ob('R1', f.qn, 'framer has a delivery path', dels > 0, detail='no-delivery-path', loc=cx.floc(f))
     return dels
 
